@@ -6,6 +6,7 @@ import (
 	"go/token"
 	"go/types"
 	"sort"
+	"strconv"
 	"strings"
 
 	"golang.org/x/tools/go/packages"
@@ -80,6 +81,43 @@ type bigEval struct {
 	env   map[string]zpoly
 	fail  string
 	sent  []zpoly
+	// red: how far below the modulus a named value is known to be: 1 reduced (< p), 2 the sum of two reduced
+	// values (< 2p: one conditional subtraction reduces it); sentRed is that state for each element sent
+	red     map[string]int
+	sentRed []int
+}
+
+// redOf: the reduction state of the value an expression denotes.
+func (b *bigEval) redOf(e ast.Expr) int {
+	e = ast.Unparen(e)
+	if c, ok := e.(*ast.CallExpr); ok {
+		_, name, _ := callName(c)
+		switch name {
+		case "Mod":
+			return 1
+		case "Add":
+			if len(c.Args) == 2 && b.redOf(c.Args[0]) == 1 && b.redOf(c.Args[1]) == 1 {
+				return 2
+			}
+			return 0
+		case "Set":
+			if len(c.Args) == 1 {
+				return b.redOf(c.Args[0])
+			}
+		}
+		return 0
+	}
+	if b.red == nil {
+		return 0
+	}
+	return b.red[baseName(e)]
+}
+
+func (b *bigEval) setRed(name string, st int) {
+	if b.red == nil {
+		b.red = map[string]int{}
+	}
+	b.red[name] = st
 }
 
 func (b *bigEval) val(e ast.Expr) zpoly {
@@ -210,6 +248,11 @@ func (b *bigEval) stmts(list []ast.Stmt) {
 					if name == "append" && len(c.Args) == 2 {
 						if v := b.val(c.Args[1]); v != nil {
 							b.sent = append(b.sent, v)
+							inner := c.Args[1]
+							if ic, ok := ast.Unparen(inner).(*ast.CallExpr); ok && len(ic.Args) == 1 {
+								inner = ic.Args[0] // bytes32(u)...
+							}
+							b.sentRed = append(b.sentRed, b.redOf(inner))
 						}
 						continue
 					}
@@ -217,17 +260,56 @@ func (b *bigEval) stmts(list []ast.Stmt) {
 				if tv, ok := b.pkg.TypesInfo.Types[x.Rhs[0]]; ok && strings.Contains(tv.Type.String(), "big.Int") {
 					if v := b.val(x.Rhs[0]); v != nil {
 						b.env[l] = v
+						b.setRed(l, b.redOf(x.Rhs[0]))
+					}
+				}
+			}
+		case *ast.IfStmt:
+			// a conditional reduction (`if u.Cmp(p) >= 0 { u.Sub(u, p) }`): in the quotient ring both sides are
+			// the same element; the body is applied
+			if x.Else == nil && strings.Contains(types.ExprString(x.Cond), ".Cmp(") {
+				b.stmts(x.Body.List)
+				// u >= p ? u - p : u brings a sum of two reduced values below p
+				if c, ok := ast.Unparen(x.Cond).(*ast.BinaryExpr); ok && (c.Op == token.GEQ || c.Op == token.GTR) {
+					if call, ok := ast.Unparen(c.X).(*ast.CallExpr); ok {
+						if sel, ok := call.Fun.(*ast.SelectorExpr); ok && sel.Sel.Name == "Cmp" {
+							n := baseName(sel.X)
+							if b.red != nil && b.red[n] == 2 && c.Op == token.GEQ {
+								b.setRed(n, 1)
+							}
+						}
 					}
 				}
 			}
 		case *ast.ExprStmt:
+			// a helper of the package that stores an element into its slot of the vector: put(dst[i*W:(i+1)*W], v)
+			if c, ok := x.X.(*ast.CallExpr); ok {
+				if id, ok := c.Fun.(*ast.Ident); ok && len(c.Args) == 2 {
+					if fn, ok := b.pkg.TypesInfo.Uses[id].(*types.Func); ok && fn.Pkg() == b.pkg.Types {
+						if tv, ok := b.pkg.TypesInfo.Types[c.Args[1]]; ok && strings.Contains(tv.Type.String(), "big.Int") {
+							if _, isSlice := c.Args[0].(*ast.SliceExpr); isSlice {
+								if v := b.val(c.Args[1]); v != nil {
+									b.sent = append(b.sent, v)
+									b.sentRed = append(b.sentRed, b.redOf(c.Args[1]))
+								}
+								continue
+							}
+						}
+					}
+				}
+			}
 			// in-place methods: z.Mod(z, p), z.Add(a, b) ...
 			if c, ok := x.X.(*ast.CallExpr); ok {
 				if sel, ok := c.Fun.(*ast.SelectorExpr); ok {
 					switch sel.Sel.Name {
 					case "Mod", "Add", "Sub", "Mul":
 						if v := b.val(c); v != nil {
-							b.env[baseName(sel.X)] = v
+							n := baseName(sel.X)
+							keep := b.red != nil && b.red[n] == 2 && sel.Sel.Name == "Sub"
+							b.env[n] = v
+							if !keep {
+								b.setRed(n, b.redOf(c))
+							}
 						}
 					}
 				}
@@ -248,14 +330,119 @@ func C20arith(p *load.Program, run *report.Run) {
 	if pkg == nil || fs == nil || fr == nil {
 		run.Undecided("vole-product-shares", "vole.Sender.Mul", "", "function not found")
 	} else {
-		be := &bigEval{p: p, pkg: pkg, env: map[string]zpoly{"pad": zvar("r"), "inputs": zvar("x"), "yb": zvar("y")}}
+		be := &bigEval{p: p, pkg: pkg, env: map[string]zpoly{"pad": zvar("r"), "inputs": zvar("x"), "yb": zvar("y"), "p": zpoly{}}}
 		var loops []*ast.ForStmt
 		for _, s := range fs.Body.List {
 			if f, ok := s.(*ast.ForStmt); ok {
 				loops = append(loops, f)
 			}
 		}
+		// a case split on the operand (x = 0, x = 1, otherwise): every arm is interpreted with x pinned to the
+		// value its condition gives it, and has to yield u - r = x*y for that x
+		caseSplit := false
+		for li, l := range loops {
+			// the split: a switch without a tag, or (after the loader's normal form) an if / else-if chain
+			// whose first condition asks about the operand
+			type armT struct {
+				cond ast.Expr
+				body []ast.Stmt
+				pos  token.Pos
+			}
+			var arms []armT
+			at := -1
+			var splitPos token.Pos
+			for i, st := range l.Body.List {
+				switch t := st.(type) {
+				case *ast.SwitchStmt:
+					if t.Tag == nil && t.Init == nil && at < 0 {
+						at, splitPos = i, t.Pos()
+						for _, cs := range t.Body.List {
+							cc := cs.(*ast.CaseClause)
+							var cond ast.Expr
+							if cc.List != nil {
+								cond = cc.List[0]
+							}
+							arms = append(arms, armT{cond, cc.Body, cc.Pos()})
+						}
+					}
+				case *ast.IfStmt:
+					if at < 0 && t.Init == nil && t.Else != nil && (strings.Contains(types.ExprString(t.Cond), ".Sign() == 0") || strings.Contains(types.ExprString(t.Cond), ".Uint64() == ")) {
+						at, splitPos = i, t.Pos()
+						var cur ast.Stmt = t
+						for cur != nil {
+							switch c := cur.(type) {
+							case *ast.IfStmt:
+								arms = append(arms, armT{c.Cond, c.Body.List, c.Pos()})
+								cur = c.Else
+							case *ast.BlockStmt:
+								arms = append(arms, armT{nil, c.List, c.Pos()})
+								cur = nil
+							default:
+								cur = nil
+							}
+						}
+					}
+				}
+			}
+			if at < 0 {
+				continue
+			}
+			caseSplit = true
+			hasDefault := false
+			for _, cc := range arms {
+				xv := zvar("x")
+				label := "default"
+				if cc.cond == nil {
+					hasDefault = true
+				} else {
+					label = types.ExprString(cc.cond)
+					switch {
+					case strings.HasSuffix(label, ".Sign() == 0"):
+						xv = zpoly{}
+					case strings.Contains(label, ".Uint64() == "):
+						k, err := strconv.ParseInt(strings.TrimSpace(label[strings.LastIndex(label, "==")+2:]), 0, 64)
+						if err == nil {
+							xv = zpoly{"1": k}
+						}
+					}
+				}
+				arm := &bigEval{p: p, pkg: pkg, env: map[string]zpoly{"pad": zvar("r"), "inputs": xv, "yb": zvar("y"), "p": zpoly{}}}
+				// the loops before this one fill the vectors it reads (the pads, the y elements)
+				for _, prev := range loops[:li] {
+					arm.stmts(prev.Body.List)
+				}
+				arm.sent = nil
+				var list []ast.Stmt
+				list = append(list, l.Body.List[:at]...)
+				list = append(list, cc.body...)
+				list = append(list, l.Body.List[at+1:]...)
+				arm.stmts(list)
+				key := "vole.Sender.Mul/case " + label
+				switch {
+				case arm.fail != "":
+					run.Undecided("vole-product-shares", key, p.Rel(cc.pos), arm.fail)
+				case len(arm.sent) != 1:
+					run.Undecided("vole-product-shares", key, p.Rel(cc.pos), "the u element of this case was not found")
+				case len(arm.sentRed) == 1 && arm.sentRed[0] != 1:
+					run.Violate("vole-product-shares", key, p.Rel(cc.pos), "the element sent in this case is not reduced modulo p (no Mod, and no conditional subtraction after the sum of two reduced values): the 32-byte slot keeps the low 256 bits of a value that can reach 2p, and the shares no longer recombine", nil)
+				default:
+					diff := arm.sent[0].add(zvar("r"), -1)
+					want := xv.mul(zvar("y"))
+					if diff.String() == want.String() {
+						run.OK("vole-product-shares", key, p.Rel(cc.pos), "u - r = "+diff.String()+" for x = "+xv.String())
+					} else {
+						run.Violate("vole-product-shares", key, p.Rel(cc.pos), "u - r = "+diff.String()+", expected x*y = "+want.String()+" for x = "+xv.String(), nil)
+					}
+				}
+			}
+			if !hasDefault {
+				run.Violate("vole-product-shares", "vole.Sender.Mul/case default", p.Rel(splitPos), "the case split on the operand has no arm for the general value", nil)
+			}
+		}
 		for _, l := range loops {
+			if caseSplit {
+				break
+			}
 			be.stmts(l.Body.List)
 		}
 		// what the sender returns
@@ -269,10 +456,19 @@ func C20arith(p *load.Program, run *report.Run) {
 			return true
 		})
 		switch {
+		case caseSplit:
+			// decided per arm above; the kept share must still be the pad
+			if kept == nil {
+				if v, ok := be.env["pad"]; ok {
+					kept = v
+				}
+			}
 		case be.fail != "":
 			run.Undecided("vole-product-shares", "vole.Sender.Mul", p.Rel(fs.Pos()), be.fail)
 		case len(be.sent) != 1 || kept == nil:
 			run.Undecided("vole-product-shares", "vole.Sender.Mul", p.Rel(fs.Pos()), "the u element or the kept share was not found")
+		case len(be.sentRed) == 1 && be.sentRed[0] != 1:
+			run.Violate("vole-product-shares", "vole.Sender.Mul/reduced", p.Rel(fs.Pos()), "the u element is sent without being reduced modulo p: the 32-byte slot keeps the low 256 bits of the unreduced value", nil)
 		default:
 			diff := be.sent[0].add(kept, -1)
 			want := zvar("x").mul(zvar("y"))
